@@ -181,9 +181,24 @@ theorem exited_state (v : Variant) (s : St) (h : Reachable v s) (hx : s.pc = .ex
   have hi : s.ioDiscarded = 0 := ia.ioD (by simp [hx])
   refine ⟨ho, by simpa [ho] using ia.acc, by have := ia.drops; omega⟩
 
-/-- The flusher never starts another batch after it has seen the stop flag. -/
-theorem no_swap_after_exit (v : Variant) (s : St) (hx : s.pc = .exited) : step v s .swap = none := by
-  simp [step, hx]
+/-- Progress: once `~Log` has set the stop flag the flusher can always run to completion on its own (no
+producer step is needed), and when it has, everything accepted before the stop is in the sink.  So `join`
+in `~Log` returns as soon as the sink takes the remaining lines, and nothing accepted is left behind. -/
+theorem shutdown_completes (v : Variant) (s : St) (h : Reachable v s) (a : List Msg) (ha : s.atStop = some a) :
+    ∃ sched : List Step, sched.all isIoStep = true ∧
+      (run v s sched).pc = .exited ∧ ∃ rest, sinkLines (run v s sched).sink = a ++ rest := by
+  have hstop : s.running = false := by
+    cases hr : s.running
+    · rfl
+    · have := (invA_reachable h).stopA.1 hr
+      simp [ha] at this
+  obtain ⟨sched, hio, hx⟩ := flusher_completes v s hstop
+  refine ⟨sched, hio, hx, ?_⟩
+  obtain ⟨_, a', rest, ha', hr⟩ := flush_on_shutdown v _ (reachable_run v sched s h) hx
+  have := run_atStop v sched s a ha
+  rw [this] at ha'
+  cases ha'
+  exact ⟨rest, hr⟩
 
 /-! ## silencing -/
 
